@@ -74,6 +74,61 @@ def candidateIdx (file : List UInt8) (key : Nat) : List Nat :=
 def entriesForKey (file : List UInt8) (p : Pos) (key : Nat) : List (Mv × Int) :=
   (candidateIdx file key).map fun (i : Nat) => (getMove p (readEntry file (i : Int)).move, ((readEntry file (i : Int)).weight : Int))
 
+/-! ### linear-time execution of `entriesForKey`
+
+`readEntry` on a `List` walks to the record from the start of the file each time, which makes the run of a huge
+equal-key book quadratic when the model is *executed* by the differential driver.  `entriesForKeyFast` walks the
+run once; `entriesForKey_eq_fast` proves it equal, and `@[csimp]` lets the compiler use it.  No theorem uses it. -/
+
+theorem readEntry_in_range (file : List UInt8) (i : Nat) (h : i < numEntries file) :
+    ((file.drop (16 * i)).take 16).length = 16 ∧
+    readEntry file (i : Int) = deSerialize ((file.drop (16 * i)).take 16) := by
+  have hl : ((file.drop (16 * i)).take 16).length = 16 := by
+    simp only [List.length_take, List.length_drop]
+    unfold numEntries at h
+    omega
+  refine ⟨hl, ?_⟩
+  unfold readEntry
+  have : ¬ ((i : Int) < 0) := by omega
+  simp only [this, if_false, Int.toNat_natCast, hl, if_true]
+
+def runFast (p : Pos) (key : Nat) : List UInt8 → Nat → List (Mv × Int)
+  | _, 0 => []
+  | rest, k + 1 =>
+    let e := deSerialize (rest.take 16)
+    if e.key ≠ key then [] else (getMove p e.move, (e.weight : Int)) :: runFast p key (rest.drop 16) k
+
+def entriesForKeyFast (file : List UInt8) (p : Pos) (key : Nat) : List (Mv × Int) :=
+  let s := (bsearch file key (-1) (numEntries file)).toNat
+  runFast p key (file.drop (16 * s)) (numEntries file - s)
+
+theorem collect_eq_runFast (file : List UInt8) (p : Pos) (key : Nat) (k : Nat) :
+    ∀ s, numEntries file - s = k →
+      (collectIdx file key s).map (fun (i : Nat) => (getMove p (readEntry file (i : Int)).move, ((readEntry file (i : Int)).weight : Int)))
+        = runFast p key (file.drop (16 * s)) k := by
+  induction k with
+  | zero =>
+    intro s hs
+    rw [collectIdx, if_neg (by omega)]
+    rfl
+  | succ k ih =>
+    intro s hs
+    have hlt : s < numEntries file := by omega
+    have hr := (readEntry_in_range file s hlt).2
+    rw [collectIdx, if_pos hlt]
+    simp only [runFast]
+    rw [← hr]
+    by_cases hk : (readEntry file (s : Int)).key ≠ key
+    · rw [if_pos hk, if_pos hk]; rfl
+    · rw [if_neg hk, if_neg hk, List.map_cons, ih (s + 1) (by omega), List.drop_drop]
+      have : 16 * (s + 1) = 16 * s + 16 := by omega
+      rw [this]
+
+@[csimp] theorem entriesForKey_eq_fast : @entriesForKey = @entriesForKeyFast := by
+  funext file p key
+  unfold entriesForKey entriesForKeyFast candidateIdx
+  exact collect_eq_runFast file p key _ _ rfl
+
 def getBookEntries (file : List UInt8) (p : Pos) : List (Mv × Int) :=
   entriesForKey file p (getHashKey p).toNat
 
